@@ -31,6 +31,13 @@ def remove_unused_self_cls(source: str) -> str:
             arguments = funcdef.args.posonlyargs + funcdef.args.args
             if not arguments:
                 continue
+            if any(_decorators_of_type(funcdef, "property")) or any(
+                isinstance(decorator, ast.Attribute)
+                and decorator.attr in {"getter", "setter", "deleter"}
+                for decorator in funcdef.decorator_list
+            ):
+                # A property is always called with the instance
+                continue
             first_arg_name = arguments[0].arg
 
             first_arg_accesses = set()
